@@ -386,7 +386,8 @@ func (m *Muxer) closeFragment(isLast bool) error {
 func (m *Muxer) writeRecordPlaylist() {
 	// 找出整个直播流从开始到结束最大的分片时长
 	currFrag := m.getClosedFrag()
-	if currFrag.duration > m.recordMaxFragDuration {
+	// 注意，recordMaxFragDuration保存的是已经加上0.5的值，比较时需要使用同样加上0.5的值，见writePlaylist中的说明
+	if currFrag.duration+0.5 > m.recordMaxFragDuration {
 		m.recordMaxFragDuration = currFrag.duration + 0.5
 	}
 
@@ -435,11 +436,17 @@ func (m *Muxer) writeRecordPlaylist() {
 func (m *Muxer) writePlaylist(isLast bool) {
 	// 找出时长最长的fragment
 	maxFrag := float64(m.config.FragmentDurationMs) / 1000
+	// 注意，先取最大值，再四舍五入。
+	// 如果每次比较时都加0.5，比如时长依次为5.25, 5.75，那么最终结果为5，小于5.75四舍五入后的值6
+	var maxDuration float64
 	m.iterateFragsInPlaylist(func(frag *fragmentInfo) {
-		if frag.duration > maxFrag {
-			maxFrag = frag.duration + 0.5
+		if frag.duration > maxDuration {
+			maxDuration = frag.duration
 		}
 	})
+	if maxDuration > maxFrag {
+		maxFrag = maxDuration + 0.5
+	}
 
 	// TODO chef 优化这块buffer的构造
 	var buf bytes.Buffer
